@@ -3,20 +3,31 @@
  'props': 'Props/C14.v',
  'models': ['Model/Js.v', 'Model/Conc.v'],
  'harness_timeout': 1500,
- 'trusted': ['PARTIAL BY NATURE: the theorems quantify over all interleavings of ATOMIC actions on the '
-             'shared state (sync.Pool Get/Put, atomic.AddInt64, LRU Get/Add - hashicorp LRU is internally '
-             'locked); that the Go code performs these accesses atomically (data-race freedom in the Go '
-             'memory model sense) is ASSUMED by the model and validated, not proved, by running the same '
-             'concurrent workload as a child process built with `go build -race` on every check',
-             'a goroutine = a list of operations (node alloc/release, cacheable xpath query, javascript '
-             'call), each a sequence of atomic actions with local steps in between; xpath.Compile / '
-             'goja.Compile / expression evaluation enter as arbitrary functions',
-             'schema_readonly is a fact about the model (no action writes h_schema); on the Go side it is '
-             'compared through transform.VerifDeclDump + a reflective deep dump of the format runtime '
-             'before/after every concurrent mix'],
- 'assumptions': ['atomicity of the listed actions (validated under the race detector: any "WARNING: DATA '
-                 'RACE" is an oracle failure)',
+ 'trusted': ['PROVED over the model (Props/C14.v, 9 theorems): every atomic action preserves the invariant (atomic_actions_preserve_inv); each '
+             "goroutine's outputs under ANY schedule among ANY other goroutines equal its outputs alone and are a function of its own operations "
+             '(interleaving_invisible, interleaving_spec); NewSchema among any other goroutines returns the pure validation of its own arguments '
+             '(new_schema_reads_args_only); no action writes schema data (schema_readonly); IDs from the counter are distinct / increasing '
+             '(ids_unique_increasing); every step performs at most ONE action of the vocabulary [action] = exactly the accesses assumed atomic '
+             '(gstep_one_action)',
+             'EXTRACTED on every run (harness/cmd/extract/gen_pkgvars.go -> coq/Gen/PkgVars.v): all package-level `var`s of the library packages '
+             "with kind and written-flag; process_state_accounted proves each is a component of the model's shared state, an unwritten switch/table, "
+             'or an unwritten error value/scalar/function; shared_components_real proves the converse. A NEW package-level '
+             'map/pool/cache/slice/counter makes the theorem stop checking (reported as no-failing-input-found unless an oracle finds an input)',
+             'ASSUMED, validated by the -race child only: the actions of [action] are atomic (sync.Pool Get/Put, atomic.AddInt64, Get/Add of the '
+             'internally locked hashicorp LRU); the Go memory model is not modelled',
+             'COMPARED only (Go-side oracles, no theorem about the Go code): per-goroutine transcripts = solo transcripts (results, error texts, '
+             'checksums) over shared Schema objects of all formats; VerifDeclDump + reflective dump of the format runtime unchanged since '
+             'validation; node IDs handed out are pairwise distinct; cold-start concurrent NewSchema; check_case (Coq) re-checks the observed '
+             'record-node IDs against the counter model',
+             'xpath.Compile / goja.Compile / expression evaluation / schema validation enter the theorems as arbitrary functions; the '
+             'xpath-expression and regexp caches live in go-corelib (outside the repository: not in Gen/PkgVars.v)'],
+ 'assumptions': ['atomicity of the listed actions (validated under the race detector: any "WARNING: DATA RACE" is an oracle failure)',
                  "rt_wf r (see C20); op_wf: both iterations of a call's arg map range over its keys",
-                 'node content is fixed when the node is created and not changed while it is live '
-                 '(content_stable_per_id of C20: built into the operation vocabulary)',
-                 'hid_ok: the initial shared state satisfies the invariant (empty caches and pools do)']}
+                 'node content is fixed when the node is created and not changed while it is live (content_stable_per_id of C20: built into the '
+                 'operation vocabulary)',
+                 'hid_ok: the initial shared state satisfies the invariant (empty caches and pools do)',
+                 'state reachable only through schema-shared declarations (per-Schema lazily written fields) is not a package-level variable: it is '
+                 'covered by the declaration dump and the race child, not by process_state_accounted'],
+ 'level_text': 'proof (Coq): refinement of every interleaving of atomic actions to the sequential spec, for any number of goroutines (transforms and '
+               "NewSchema calls); the process-wide variables of the sources are pinned to the model's shared state by an extracted fact; PARTIAL: "
+               'atomicity of the listed actions (data-race freedom) is assumed and validated under the race detector, not proved'}
